@@ -27,4 +27,4 @@ if [ $B -eq 0 ] && [ $M -ne 0 ] && [ $S -eq 0 ]; then
 else
   echo "NOT CONFIRMED"
 fi
-rm -f /tmp/confirm-$ID.base /tmp/confirm-$ID.mut /tmp/confirm-$ID.suite
+grep -B2 -A8 -- "--- FAIL" /tmp/confirm-$ID.suite | head -30; rm -f /tmp/confirm-$ID.base /tmp/confirm-$ID.mut /tmp/confirm-$ID.suite
